@@ -524,11 +524,11 @@ func randAttrs(g *Rng, n int, small bool) []*big.Int {
 }
 
 type issued struct {
-	cred    *gabi.Credential
-	builder *gabi.CredentialBuilder
-	icm     *gabi.IssueCommitmentMessage
-	ism     *gabi.IssueSignatureMessage
-	attrs   []*big.Int
+	cred                            *gabi.Credential
+	builder                         *gabi.CredentialBuilder
+	icm                             *gabi.IssueCommitmentMessage
+	ism                             *gabi.IssueSignatureMessage
+	attrs                           []*big.Int
 	context, nonce1, nonce2, secret *big.Int
 }
 
